@@ -34,11 +34,14 @@ def from_json(j):
 
 
 brk_item = st.one_of(
-    st.sampled_from(["a", "b", "c", "A", "_", "1", " ", "é", "日", ".", "*", "(", "[", "[", "*", "=", "\\", "\\"]).map(lambda c: ["c", c]),
+    st.sampled_from(["a", "b", "c", "A", "_", "1", " ", "é", "日", ".", "*", "(", "[", "[", "*", "=", "\\", "\\", "]", "]", ")"]).map(lambda c: ["c", c]),
     st.sampled_from([("a", "c"), ("0", "9"), ("A", "B"), ("a", "z"), ("é", "日"), ("b", "b"), ("A", "z"), ("Z", "a"), ("X", "c")]).map(lambda t: ["r", t[0], t[1]]),
     st.sampled_from(CLASSNAMES).map(lambda c: ["k", c]),
 )
-brk_node = st.tuples(st.booleans(), st.lists(brk_item, min_size=1, max_size=3)).map(lambda t: ["brk", t[0], t[1]])
+# (one bracket in six has "]" as its first and/or "[" as its last member: the shapes in which the bracket scanners must agree on where it ends)
+brk_edge = st.tuples(st.booleans(), st.sampled_from([[["c", "]"]], [["c", "]"], ["c", "["]], [["c", "]"], ["c", "a"], ["c", "["]], [["c", "["]], [["c", "]"], ["c", "("]],
+                                                      [["c", "]"], ["c", ")"], ["c", "["]]])).map(lambda t: ["brk", t[0], t[1]])
+brk_node = st.one_of(*([st.tuples(st.booleans(), st.lists(brk_item, min_size=1, max_size=3)).map(lambda t: ["brk", t[0], t[1]])] * 5 + [brk_edge]))
 single = st.one_of(st.sampled_from(LIT_CHARS).map(lambda c: ["lit", c]), st.just(["any"]), brk_node)
 litrun = st.lists(st.sampled_from(LIT_CHARS), min_size=1, max_size=4).map(lambda l: ["lit", "".join(l)])
 anchor = st.sampled_from([["bol"], ["eol"], ["wb"], ["we"]])
